@@ -381,7 +381,7 @@ func c19Awkward(rng *rand.Rand, kind string) string {
 	case "no-literal":
 		return base + "type A struct {\n\tName string // 姓名 @tag valid:\"required\"\n\tAge  int32 `json:\"age\"` // @tag valid:\"to=1~150\"\n}\n\n" + good
 	case "malformed-tag":
-		forms := []string{"@tag valid:required", "@tag :\"x\"", "@tag valid:\"", "@tag", "@tag valid:\"a\" @tag json:\"b\"", "@tagvalid:\"x\"", "@tag  "}
+		forms := []string{"@tag valid:required", "@tag :\"x\"", "@tag valid:\"", "@tag", "@tag valid:\"a\" @tag json:\"b\"", "@tagvalid:\"x\"", "@tag  ", "@tag desc:\"C:\\tmp\\", "@tag a:\"1\" b:\"x\\"}
 		return base + "type A struct {\n\tName string `json:\"name\"` // " + forms[rng.Intn(len(forms))] + "\n\tAge int32 `json:\"age\"` // @tag valid:\"ge=0\"\n}\n\n" + good
 	case "grouped":
 		if rng.Intn(3) == 0 {
